@@ -2,5 +2,6 @@ pub mod common;
 pub mod c01;
 pub mod c02;
 pub mod c03;
+pub mod c05;
 pub mod c13;
 pub mod c19;
